@@ -421,11 +421,15 @@ class PdoMap:
 
         try:
             self.map_array[0].raw = 0
-        except SdoAbortedError:
+        except SdoAbortedError as e:
             # WORKAROUND for broken implementations: If the array has a
             # fixed number of entries (count not writable), generate dummy
             # mappings for an invalid object 0x0000:00 to overwrite any
             # excess entries with all-zeros.
+            if e.code != 0x06010002:
+                # Abort codes other than "Attempt to write a read-only
+                # object" should still be reported.
+                raise
             self._fill_map(self.map_array[0].raw)
         subindex = 1
         for var in self.map:
